@@ -469,6 +469,7 @@ class CutWind(CutMet):
         blob, data, tflags, B = self.blob_and_data()
         lo, hi = self.Lrange(len(blob))
         L = ctx.int('L', lo, hi)
+        ctx.max_concretize = max(ctx.max_concretize, hi - lo + 2)
         nb = ctx.concretize(L.e)
         d = tempfile.mkdtemp(prefix='verif_met_')
         path = os.path.join(d, 'cut.bin')
@@ -597,6 +598,92 @@ class CutCloudRain(CutWind):
         return self._real_with(inputs, 'cloud_rain')
 
 
+class CutLatBnd(CutWind):
+    """lateral-boundary memmap reader on the prefix [0, L) of a reference
+    file"""
+    modname = 'PseudoNetCDF.camxfiles.lateral_boundary.Memmap'
+    max_paths = 3000
+
+    def __init__(self, nspec, nz, T, nx, ny, rec=None, h0=22):
+        self.nspec = nspec
+        CutWind.__init__(self, nz, T, ny, nx, rec, h0)
+        self.name = 'cut-lateral_boundary[nspec=%d,nz=%d,T=%d,nx=%d,ny=%d,' \
+            'record=%s]' % (nspec, nz, T, nx, ny, rec)
+
+    def layout(self):
+        return layouts.LatBndLayout(self.nspec, self.nz, self.T, self.cols,
+                                    self.rows, 4365, self.h0)
+
+    def blob_and_data(self):
+        if self._bd is None:
+            lay = self.layout()
+            d = tempfile.mkdtemp(prefix='verif_met_')
+            p = os.path.join(d, 'full.bin')
+            try:
+                arr = lay.write_real(p)
+                with open(p, 'rb') as f:
+                    blob = f.read()
+            finally:
+                os.remove(p)
+                os.rmdir(d)
+            data = {}
+            for en, n in lay.edges:
+                for si, sn in enumerate(lay.spcnames):
+                    data[en + '_' + sn.strip()] = arr[en][:, si]
+            tfl = [(cent(t[0]), int(t[1]) * 10000) for t in lay.times]
+            self._bd = (blob, data, tfl, lay.B)
+            self._H = lay.H
+            self._st = lay.starts
+        return self._bd
+
+    def _starts(self):
+        self.blob_and_data()
+        # the static header is one "record" for the purpose of splitting
+        return [0] + self._st[self.layout_nstatic():]
+
+    def layout_nstatic(self):
+        return 8
+
+    def Lrange(self, full):
+        lo, hi = CutWind.Lrange(self, full)
+        if self.rec == 0:
+            # inside the static header only the last 64 byte offsets are
+            # explored (the reader maps each header record with an explicit
+            # shape, which np.memmap refuses beyond the end of the file)
+            lo = max(lo, hi - 63)
+        return lo, hi
+
+    def _open(self, cls, path):
+        def go():
+            f = cls(path)
+            k = len(f.dimensions['TSTEP'])
+            keys = [v for v in f.variables.keys()
+                    if v not in ('TFLAG', 'ETFLAG')]
+            vals = dict((v, np.asarray(f.variables[v][:])) for v in keys)
+            tf = np.asarray(f.variables['TFLAG'][:])[:, 0, :]
+            return k, vals, tf
+        return _with_alarm(self.LIMIT, go)
+
+    def sym(self, ctx, h):
+        self._sym_with(ctx, h, 'lateral_boundary')
+
+    def real(self, inputs):
+        return self._real_with(inputs, 'lateral_boundary')
+
+
+class FullLatBnd(CutLatBnd):
+    full = True
+
+    def __init__(self, nspec, nz, T, nx, ny, h0=22):
+        CutLatBnd.__init__(self, nspec, nz, T, nx, ny, None, h0)
+        self.name = 'reader-lateral_boundary-full[nspec=%d,nz=%d,T=%d,' \
+            'nx=%d,ny=%d]' % (nspec, nz, T, nx, ny)
+        self.bounds = {'nspec': nspec, 'nz': nz, 'T': T, 'nx': nx, 'ny': ny}
+
+    def Lrange(self, full):
+        return (full, full)
+
+
 class FullWind(CutWind):
     full = True
 
@@ -637,6 +724,11 @@ def cut_obligations(tier):
         n = 1 + T * (1 + nvars * nz)
         for rec in range(n):
             obs.append(CutCloudRain(nvars, nz, T, rows, cols, rec))
+    for nspec, nz, T, nx, ny in ([(1, 1, 2, 2, 3)] if tier == 'quick' else
+                                 [(1, 1, 2, 2, 3), (2, 2, 2, 3, 2)]):
+        n = 1 + T * (1 + nspec * 4)
+        for rec in range(n):
+            obs.append(CutLatBnd(nspec, nz, T, nx, ny, rec))
     return obs
 
 
@@ -654,4 +746,6 @@ def full_obligations(tier):
                 obs.append(FullMetFile(fmt, nz, T, rows, cols, explicit))
     for nz, T, rows, cols in ((2, 2, 1, 2), (1, 3, 2, 1), (2, 3, 2, 2)):
         obs.append(FullWind(nz, T, rows, cols))
+    for nspec, nz, T, nx, ny in ((1, 1, 2, 2, 3), (2, 2, 3, 3, 2)):
+        obs.append(FullLatBnd(nspec, nz, T, nx, ny))
     return obs
